@@ -113,12 +113,28 @@ FailSetJudge(r) ==
                 /\ Len(o) - 2 <= Len(ref) /\ SubSeq(o, 1, Len(o) - 2) = SubSeq(ref, 1, Len(o) - 2)
   IN [ok |-> okref /\ \A k \in 1..Len(fs) : okf(fs[k]), free |-> FALSE]
 
+\* C09, direct binding: the ErrorQueue trait methods on StaticErrorQueue<K>
+CustomTxt == <<99, 117, 115, 116, 111, 109>>     \* "custom"
+RECURSIVE QueueWalk(_, _, _, _, _)
+QueueWalk(K, q, ops, res, i) ==
+  IF i > Len(ops) THEN Len(res) = Len(ops)
+  ELSE LET o == ops[i] r == res[i] IN
+       CASE o.op = "push" ->
+              LET txt == IF ("custom" \in DOMAIN o /\ o.custom) \/ ErrText(o.n) = ANYT THEN CustomTxt ELSE ErrText(o.n) IN
+              r.r = "pushed" /\ QueueWalk(K, QPush(q, K, [n |-> o.n, txt |-> txt]), ops, res, i + 1)
+         [] o.op = "pop" ->
+              IF q = <<>> THEN r.r = "none" /\ QueueWalk(K, q, ops, res, i + 1)
+              ELSE r.r = "pop" /\ r.n = QFront(q).n /\ r.txt = QFront(q).txt
+                   /\ QueueWalk(K, QPop(q), ops, res, i + 1)
+         [] OTHER -> r.r = "count" /\ r.c = QCount(q) /\ QueueWalk(K, q, ops, res, i + 1)
+
 \* [ok, free] of one line
 Judge(r) ==
   CASE r.kind = "run" ->
          LET E == RunEnd(CfgOf(r.iface), <<>>, Room(r.w), r.in, r.obs) IN
          [ok |-> RunMonitors(r.in, r.w, r.obs) /\ E # {}, free |-> \A st \in E : st.free]
     [] r.kind = "runs" -> RunsOk(CfgOf(r.iface), <<>>, r.w, r.msgs, 1, r.obs, 1)
+    [] r.kind = "queue" -> [ok |-> QueueWalk(r.K, <<>>, r.ops, r.obs, 1), free |-> FALSE]
     [] r.kind = "procset" -> ProcSetJudge(r)
     [] r.kind = "runset" -> RunSetJudge(r)
     [] r.kind = "multi" -> MultiJudge(r)
